@@ -1,5 +1,6 @@
 import TcheranVerif.Props.C03
 import TcheranVerif.Model.Rules
+import TcheranVerif.Proofs.LegalMoveFacts
 /-!
 # C02 — making and unmaking moves is exactly reversible; the three board views never disagree
 
@@ -14,8 +15,13 @@ import TcheranVerif.Model.Rules
   interleaving a depth-first search performs is of this form at each node).
 * `make_mailbox` — what `make_move` does to the placement (mover lifted, captured man removed,
   promoted piece placed, e.p. victim removed, castling rook moved).
-"Follows the rules" (side, rights, e.p. target, clocks compared with `Rules.apply`) is decided by the
-correspondence/oracle stream; its refinement theorem `make_refines` is stated but not proved: partial.
+* `make_refines` — **follows the rules**: whenever `make_move` answers for a move whose mover belongs to
+  the side to move (for castling: king moving, rook on its home square), the position it produces is
+  `Rules.apply` of the position before: placement (castling rook, pawn removed en passant, promoted piece),
+  side to move, castling rights, en-passant target (engine convention: only with an enemy pawn beside the
+  pushed pawn), halfmove clock and ply counter. `make_refines_legal` instantiates it for every legal move.
+Not proved: that `make_move` does answer (never panics) for every legal move; the `play` stream decides it
+on every sampled history.
 -/
 namespace Tcheran.Props.C02
 open Tcheran Board Game Tcheran.Props.C03
@@ -95,20 +101,28 @@ theorem make_mailbox (c : Cfg) (g g' : Game) (mv : Move) (hr : makeMove c g mv =
     ∃ moved, g.board.pieceAt mv.src = some moved ∧ g'.player = g.player.other ∧ g'.plies = g.plies + 1 ∧
       ∀ t, g'.board.pieceAt t =
         if mv.isEnPassant = true ∧ mv.dst.backward g.player = some t then none
-        else if t = mv.dst then some (placedPiece mv g.player moved)
+        else if t = mv.dst then some (Game.placedPiece mv g.player moved)
         else if t = mv.src then none
         else g.board.pieceAt t := by
   obtain ⟨moved, cap, h1, _, _, h4, h5, _, h7, _⟩ := makeMove_mailbox c g g' mv hr
   exact ⟨moved, h1, h4, h5, h7 hnc⟩
 
-/-- full statement of the rules-refinement (checked by the oracle stream, not proved) -/
-def make_refines_full : Prop :=
-  ∀ (c : Cfg) (g g' : Game) (mv : Move),
-    Rules.legalPos ⟨g.board.squares, g.player, g.rights, g.ep, g.halfmove, g.plies⟩ = true →
-    mv ∈ Rules.legalMoves ⟨g.board.squares, g.player, g.rights, g.ep, g.halfmove, g.plies⟩ →
-    makeMove c g mv = some g' →
-    (⟨g'.board.squares, g'.player, g'.rights, g'.ep, g'.halfmove, g'.plies⟩ : Rules.Pos) =
-      Rules.apply ⟨g.board.squares, g.player, g.rights, g.ep, g.halfmove, g.plies⟩ mv
+/-- **make_refines** -/
+theorem make_refines (c : Cfg) (g g' : Game) (mv : Move) (hc : g.board.Consistent)
+    (hr : makeMove c g mv = some g')
+    (hown : ∀ M, g.board.pieceAt mv.src = some M → M.player = g.player)
+    (hcastle : mv.isCastling = true →
+      (∀ M, g.board.pieceAt mv.src = some M → M.kind = .king) ∧
+      ∃ rf rt, castleSquares g.player mv.dst = some (rf, rt) ∧ g.board.pieceAt rf = some ⟨.rook, g.player⟩ ∧
+        rf ≠ mv.src ∧ rf ≠ mv.dst) :
+    Rules.ofGame g' = Rules.apply (Rules.ofGame g) mv :=
+  Tcheran.make_refines c g g' mv hc hr hown hcastle
+
+/-- the rules-refinement for every legal move -/
+theorem make_refines_legal (c : Cfg) (g g' : Game) (mv : Move) (hc : g.board.Consistent)
+    (hl : mv ∈ Rules.legalMoves (Rules.ofGame g)) (hr : makeMove c g mv = some g') :
+    Rules.ofGame g' = Rules.apply (Rules.ofGame g) mv :=
+  Tcheran.make_refines_legal c g g' mv hc hl hr
 
 /-- non-vacuity: a quiet knight move from an (otherwise empty) consistent board satisfies `MoveOk` -/
 example : MoveOk (Game.fromState theCfg (Board.empty.setAt B1 ⟨.knight, .white⟩) .white Rights.none none 0 0)
@@ -128,3 +142,5 @@ end Tcheran.Props.C02
 #print axioms Tcheran.Props.C02.unwind_path
 #print axioms Tcheran.Props.C02.views_agree_along_path
 #print axioms Tcheran.Props.C02.make_mailbox
+#print axioms Tcheran.Props.C02.make_refines
+#print axioms Tcheran.Props.C02.make_refines_legal
